@@ -8,6 +8,7 @@ import (
 	"net/netip"
 	"runtime/debug"
 	"sync"
+	"time"
 
 	"github.com/mycoria/mycoria/config"
 	"github.com/mycoria/mycoria/frame"
@@ -135,6 +136,10 @@ type Fabric struct {
 	listeners map[string]*simnet.SimListener
 	Dials     int
 	DialFails int
+	// DialLatency is the simulated time one connection attempt takes before
+	// the listener sees it (a TCP connect is never instantaneous). Chosen per
+	// run by the harness.
+	DialLatency time.Duration
 }
 
 // NewFabric returns an empty fabric.
@@ -152,6 +157,9 @@ func (sp simProtocol) Name() string { return "sim" }
 // PeerWith does what protocol_tcp.go does after dialing: run the shipped link
 // setup on the new connection.
 func (sp simProtocol) PeerWith(p *peering.Peering, u *m.PeeringURL, ip netip.Addr) (peering.Link, error) {
+	if sp.f.DialLatency > 0 {
+		time.Sleep(sp.f.DialLatency)
+	}
 	sp.f.mu.Lock()
 	ln := sp.f.listeners[u.Domain]
 	sp.f.Dials++
